@@ -85,7 +85,7 @@ PlacementClass(f) ==
 SideClass(f) == IF f = <<"w">> \/ f = <<"b">> THEN "A" ELSE "R"
 
 CastLetters == {"K", "Q", "k", "q"}
-CastOrder(c) == CASE c = "K" -> 1 [] c = "Q" -> 2 [] c = "k" -> 3 [] c = "q" -> 4
+CastOrder(c) == CASE c = "K" -> 1 [] c = "Q" -> 2 [] c = "k" -> 3 [] c = "q" -> 4 [] OTHER -> 0
 CastClass(f) ==
   IF f = <<"-">> THEN "A"
   ELSE IF \E i \in 1..Len(f) : f[i] \notin CastLetters \cup {"-"} THEN "R"
